@@ -103,7 +103,8 @@ def rand_scenario(rng, family, policies=False):
     if rng.random() < 0.08:
         # the largest MPP timeout the option accepts ("never time out"): the trace carries 1_000_000
         cfg["mpp"] = 1000000
-        cfg["mpp_real"] = rng.choice([2**63 - 1, 2**63 - 1, 2**62, 10**12])
+        # (4_294_968 s is just above 2^32 ms, 8_589_935 s just above 2^33 ms)
+        cfg["mpp_real"] = rng.choice([2**63 - 1, 2**62, 10**12, 4294968, 4294968, 8589935])
     p = pool(cfg, A)
     hs = []
     if family == "base":
@@ -287,7 +288,8 @@ def class_jobs(seed, tier, start_run=1):
                 shaped.append((sh, dict(h, meta=meta)))
     cases = cases + shaped
     extras = [[], [(10, "aabb")], [(18, ""), (65537, "01")], [(1, "00"), (12, "ff" * 3), (4294967297, "05")],
-              [(18, "")], [(10, "aabb"), (65, "")], [(7, ""), (4294967297, "")]]
+              [(18, "")], [(10, "aabb"), (65, "")], [(7, ""), (4294967297, "")],
+              [(1000 + k, "%02x" % k) for k in range(40)]]      # many records
     for sh, h in cases:
         cfg = dict(CFG_A); cfg["selfhints"] = sh
         if rng.random() < 0.3:
